@@ -36,3 +36,7 @@ def run(ctx):
     ctx.replay(common.thin(bw, 5000, ctx.seed) if q else bw, pre, observe, ordered=True, label="edges_table32")
     # EMCY identifier 80h + node id, 1014h with the node-id flag: the same model with the largest node id
     node_check.node_id_variant(ctx, "MCEmcy", "C15", pre, observe, True, (100, 4000), 45, 2500)
+    # next to every other service and timer of the node (product model CoFull)
+    import full_check
+    full_check.run(ctx, 400 if q else 20000)
+
